@@ -260,6 +260,21 @@ def check_ref_split(ctx, cfg, key):
     tr = transfers(a)
     moved = sum(len(v) for v in tr.values())
     ds = [d for d in a.derefs if d["ref"] and d["ptr"][0] == "P" and d["ptr"][1] == ("arg", 1)]
+    via_views = ""
+    if len(ds) != 2:
+        # built through the crate's own checked view functions (as_slice, split_at, from_slice ..): judged with those expanded - the two
+        # reborrows are then in this body - and none of their length checks may be able to fail (the halves exist for every K <= N)
+        from ..rules import reachable_panics
+        ax = ctx.analysis_inl(cfg, key, force="*", tag="refsplit")
+        dx = [d for d in ax.derefs if d["ref"] and d["ptr"][0] == "P" and d["ptr"][1] == ("arg", 1) and is_ga(strip_wrappers(d["pointee"]))]
+        pan = reachable_panics(ax)
+        if len(dx) == 2 and not pan:
+            a, ds = ax, dx
+            tr = transfers(a)
+            moved = sum(len(v) for v in tr.values())
+            via_views = " (through the crate's checked view functions, expanded; no length check in them can fail)"
+        elif pan:
+            via_views = " (expanded view functions can panic: %s)" % pan
     total = a.base_extent(("arg", 1))
     det = "halves: " + "; ".join("[%r,+%r) as %s" % (d["ptr"][2], a.tenv.size(d["pointee"]), tstr(d["pointee"])) for d in ds)
     ok = len(ds) == 2 and moved == 0
@@ -273,7 +288,7 @@ def check_ref_split(ctx, cfg, key):
         first = [d for d in ds if peq(a, frozenset(), d["ptr"][2], Poly.const(0))]
         ok = ok and len(first) == 1 and all(v[0] == "A" and v[1] == "tuple" and v[2][0][0] == "P" and peq(a, frozenset(), v[2][0][2], Poly.const(0))
                                            and v[2][1][0] == "P" and peq(a, frozenset(), v[2][1][2], a.tenv.size(first[0]["pointee"])) for v in rets)
-    ctx.ob(rule, key, ok, det + "; no raw read/write/copy in the body: %s" % (moved == 0), at=b["at"], cfg=cfg)
+    ctx.ob(rule, key, ok, det + via_views + "; no raw read/write/copy in the body: %s" % (moved == 0), at=b["at"], cfg=cfg)
     st, ldet = lifetime_linkage(ctx.db(cfg), b)
     ctx.ob("C09.L", key, st if st is not None else UNKNOWN, ldet, at=b["at"], cfg=cfg)
     return 1
